@@ -10,7 +10,8 @@ SCENARIOS = ["getter", "add_entry", "update_entries", "update_entries+cleanup", 
              "shutdown", "three getters"]
 KINDS = {1: "update", 2: "subscribe", 3: "subscribe_query", 4: "housekeeping", 5: "provide_actuation", 6: "actuate",
          7: "batch_actuate", 8: "add_entry", 9: "get", 10: "shutdown", 11: "subscribe-and-leave", 12: "subscribe_query-and-leave",
-         13: "subscribe_query (lazy reader)", 14: "burst of 12 updates"}
+         13: "subscribe_query (lazy reader)", 14: "burst of 12 updates",
+         15: "provider already gone, still registered"}
 VERDICTS = {1: "deadlock: an unfinished call with nothing runnable",
             2: "stale subscriber: last value sent differs from the stored value",
             3: "subscribers saw the changes of a signal in different orders",
@@ -106,6 +107,7 @@ def task_sets(tier, focus):
         (lambda a: (9, a, 0)), (10, 0, 0)
     D, DQ = (lambda a: (11, a, 0)), (lambda a: (12, a, 0))     # subscribers that go away at once
     LQ, BU = (lambda a: (13, a, 0)), (lambda a, b: (14, a, b))  # a query subscriber that reads lazily; a burst of writes
+    DP = lambda a: (15, a, 0)                                   # a provider that is gone but not yet cleaned up
     sets = []
     if focus == "C08":
         sets = [[D(0), S(0), U(0, 101)], [DQ(0), S(0), U(0, 101)], [S(0), D(0), U(0, 101), U(0, 102)],
@@ -119,7 +121,9 @@ def task_sets(tier, focus):
                      [S(0), S(0), U(0, 101), U(0, 102), Q(0), H]]
     elif focus == "C10":
         sets = [[P(0), P(0)], [P(0, 1), P(1), P(0)], [P(0), A(0), H], [P(0), P(0), A(0), H], [P(0, 1), P(1, 0), B(0, 1)],
-                [P(2), P(0)], [P(0), P(1), P(0, 1)]]
+                [P(2), P(0)], [P(0), P(1), P(0, 1)],
+                # a stale registration of another actuator that housekeeping removes while two claims race
+                [DP(1), P(0), P(0), H], [DP(1), P(0), P(0, 1), H], [DP(0), P(0), P(0), H]]
         if tier == "thorough":
             sets += [[P(0), P(0), P(0)], [P(0, 1), P(1), P(0), A(1), H], [P(0), P(0), A(0), B(0, 2), H]]
     elif focus == "C16":
@@ -137,9 +141,9 @@ def task_sets(tier, focus):
     return sets
 
 
-def explore(sets, tier, seed, kinds):
+def explore(sets, tier, seed, kinds, dfs_quick=1500):
     """runs the schedule search; returns (findings, stats). A finding = dict with spec/schedule/verdict."""
-    dfs_limit = 1500 if tier == "quick" else 40000
+    dfs_limit = dfs_quick if tier == "quick" else 40000
     rnd_limit = 300 if tier == "quick" else 5000
     lines = []
     for s in sets:
